@@ -324,6 +324,17 @@ pub fn generate(prop: &str, thorough: bool, r: &mut Rng, em: &mut Emit) {
                     }
                 }
                 crate::val::NONEMPTY_VECS.store(false, std::sync::atomic::Ordering::Relaxed);
+                // hand-written messages: NON-empty vectors of element types that have no values or no bytes (vec empty, vec null, vec reserved,
+                // vec record {}) and vectors of byte-sized look-alikes, with as many payload bytes as the count claims
+                {
+                    let h = |s: &str| hex::decode(s.replace(' ', "")).unwrap();
+                    for m in ["4449444c 01 6d 6f 01 00 02 01 02", "4449444c 01 6d 6f 01 00 01 00", "4449444c 01 6d 7f 01 00 02 01 02", "4449444c 01 6d 70 01 00 03 61 62 63",
+                              "4449444c 02 6d 01 6c 00 01 00 02 61 62", "4449444c 01 6d 7e 01 00 02 00 01", "4449444c 01 6d 77 01 00 02 61 62", "4449444c 01 6d 7b 01 00 02 61 62",
+                              "4449444c 00 01 71 02 61 62", "4449444c 01 6e 7b 01 00 01 61", "4449444c 01 6d 6f 01 00 00"] {
+                        em.stat("borrowed.hand-written");
+                        em.case_nt(if m.ends_with("01 00 00") { "p.c08.agree.empty-vec-at-bytes" } else { "p.c08.agree" }, &[tn_arg(name), sx::hex(&h(m))], true);
+                    }
+                }
                 // known finding: the empty vector of another element type, accepted untyped at vec nat8, rejected by byte buffers
                 if *name != "&str" && *name != "Cow<str>" {
                     for wt in [T::vec(T::p("int8")), T::vec(T::p("nat")), T::vec(T::p("text"))] {
